@@ -155,7 +155,7 @@ def gen_scenario(rnd, ch, idx, earlier, orc):
             return (kw, 'I send event %s' % ev, [('p', str(rnd.randint(0, 3)))])
         if r < 0.66:
             orc.acc.count('mutable_literal_parameters')
-            lit = rnd.choice(('[1, 2]', '[1, 2]', '[]', '[0]'))      # the same literal text comes back in later steps and scenarios
+            lit = rnd.choice(('[1, 2]', '[1, 2]', '[]', '[0]', "['a|b']", "['x|', '|']"))      # the same literal text comes back in later steps and scenarios
             if rnd.random() < 0.5:
                 return (kw, 'I send event %s with q=%s' % (ev, lit), None)
             return (kw, 'I send event %s' % ev, [('q', lit)])
@@ -278,7 +278,7 @@ def feature_text(name, scenarios, background=()):
             if st[2]:
                 lines.append('      | parameter | value |')
                 for p, v in st[2]:
-                    lines.append('      | %s | %s |' % (p, v))
+                    lines.append('      | %s | %s |' % (p, v.replace('|', '\\|')))        # (a pipe inside a cell is written \|)
     return '\n'.join(lines) + '\n'
 
 
